@@ -196,6 +196,8 @@ class Poly:
             a = self.single_atom()
             if a is not None and a[0] == 'Abs':
                 return a[1] * a[1]
+            if a is not None and a[0] == 'Sqrt':
+                return a[1]
             if len(self.t) == 1:
                 (k, v), = self.t.items()
                 if len(k) == 1 and k[0][0][0] == 'Abs' and k[0][1] == 1:
@@ -507,6 +509,7 @@ def atom_deps(a):
     if tag == 'R': return set(a[4])
     if tag in ('Mean', 'Sum'): return a[2].deps() - set(a[1])
     if tag == 'Abs': return a[1].deps()
+    if tag == 'Sqrt': return a[1].deps()
     if tag == 'Inv': return a[1].deps()
     if tag == 'Log': return atom_deps(a[1])
     if tag in ('FloorDiv', 'Mod'): return a[1].deps() | a[2].deps()
@@ -523,7 +526,7 @@ def map_deps(a, f):
     if tag == 'F': return a[:3] + (frozenset(f(set(a[3]))),) + a[4:]
     if tag == 'R': return a[:4] + (frozenset(f(set(a[4]))),)
     if tag in ('Mean', 'Sum'): return (tag, a[1], a[2].map_atoms(lambda x: map_deps(x, f)))
-    if tag in ('Abs', 'Inv'): return (tag, a[1].map_atoms(lambda x: map_deps(x, f)))
+    if tag in ('Abs', 'Inv', 'Sqrt'): return (tag, a[1].map_atoms(lambda x: map_deps(x, f)))
     if tag == 'Log': return ('Log', map_deps(a[1], f))
     return a
 
@@ -547,6 +550,7 @@ def fmt_atom(a):
     if tag in ('Mean', 'Sum'): return f"{tag}[{','.join(a[1])}]({a[2]})"
     if tag == 'Abs': return f"|{a[1]}|"
     if tag == 'Inv': return f"1/({a[1]})"
+    if tag == 'Sqrt': return f"sqrt({a[1]})"
     if tag == 'Log': return f"log({fmt_atom(a[1])})"
     if tag == 'S': return repr(a[1])
     if tag == 'R': return f"uniform[{a[1]}]({a[2]}, {a[3]})"
@@ -743,7 +747,7 @@ class AT:
     # ---- indexing
     def __getitem__(self, idx):
         if isinstance(idx, Sym):
-            return Sym('gather', self, idx)
+            return Sym('gather', at_key(self), idx)
         if not isinstance(idx, tuple):
             idx = (idx,)
         idx = tuple(_norm_index(i) for i in idx)
@@ -808,6 +812,20 @@ class AT:
         if self.axes != ():
             raise Top(f"expected a scalar, got axes {self.axes}")
         return self.data[()]
+
+
+def at_key(a):
+    """hashable structural form of a tensor (used when a tensor becomes an argument of an opaque term)"""
+    def e(p):
+        if p.is_const() and p.cval().denominator == 1:
+            return int(p.cval())
+        at = p.single_atom()
+        if at is not None and at[0] == 'S':
+            return at[1]
+        return p
+    if a.axes == ():
+        return e(a.data[()])
+    return ('AT', a.axes, tuple(e(x) for x in a.entries()))
 
 
 def _norm_index(i):
@@ -1150,15 +1168,17 @@ def jnp_reshape(a, shape):
     src = [x for x in a.axes if x != 1]
     tgt = []
     for s in shape:
+        s = _as_count(s)
         if isinstance(s, SymDim):
             tgt.append(s.name)
         else:
-            s = _dim(s)
             tgt.append(s)
     if -1 in tgt:
         if tgt == [-1]:
             if len(src) == 1:
                 tgt = list(src)
+            elif len(src) == 2 and all(isinstance(x, str) for x in src):
+                return AT((f"Prod({src[0]},{src[1]})",), a.data.reshape(()))
             elif len(src) == 2 and isinstance(src[0], str) and isinstance(src[1], int):
                 raise Top(f"flatten of rows x columns {a.axes}")
             else:
@@ -1166,6 +1186,13 @@ def jnp_reshape(a, shape):
         else:
             raise Top("reshape with -1 on a symbolic tensor")
     core = [x for x in tgt if x != 1]
+    # a product row axis Prod(A,B) (A major) reshapes to the two axes (A, B) and back
+    if len(src) >= 1 and isinstance(src[0], str) and src[0].startswith("Prod(") and len(core) == len(src) + 1:
+        sp = _split2(src[0][5:-1])
+        if sp and list(core[:2]) == [sp[0], sp[1]] and core[2:] == src[1:]:
+            return AT(tuple(tgt), a.data.reshape(tuple(x for x in tgt if isinstance(x, int))))
+        if sp and list(core[:2]) == [sp[1], sp[0]]:
+            raise Finding(f"reshape of a product row axis {src[0]} to ({core[0]}, {core[1]}): the major axis comes first")
     if core != src:
         if [x for x in core if not isinstance(x, int)] == [x for x in src if not isinstance(x, int)]:
             import math
@@ -1175,11 +1202,25 @@ def jnp_reshape(a, shape):
     return AT(tuple(tgt), a.data.reshape(tuple(x for x in tgt if isinstance(x, int))))
 
 
+def _as_count(r):
+    """a repetition count: int, extent of a named axis, or a symbolic count n (-> extent of the axis named n)"""
+    if isinstance(r, SymDim):
+        return r
+    if isinstance(r, AT) and r.axes == ():
+        r = r.data[()]
+    if isinstance(r, Sym):
+        return SymDim(str(Poly.atom(('S', r))))
+    if isinstance(r, Poly) and not r.is_const():
+        return SymDim(str(r))
+    return _dim(r)
+
+
 def jnp_repeat(a, repeats, axis=None, **kw):
     a = to_at(a)
     if axis is None:
         raise Top("repeat without axis")
     k = _dim(axis) % len(a.axes)
+    repeats = _as_count(repeats)
     if isinstance(repeats, SymDim):
         if isinstance(a.axes[k], str):
             return AT(a.axes[:k] + (f"Rep({a.axes[k]},{repeats.name})",) + a.axes[k + 1:], a.data)
@@ -1209,6 +1250,7 @@ def jnp_tile(a, reps):
     axes = list(a.axes)
     data = a.data
     for k, r in enumerate(reps):
+        r = _as_count(r)
         if isinstance(r, SymDim):
             if isinstance(axes[k], str):
                 axes[k] = f"Tile({axes[k]},{r.name})"
